@@ -241,8 +241,12 @@ class Path(parent.Geometry):
         """
         # get the hash of the trackedarray vertices
         hashable = [hex(self.vertices.__hash__()).encode("utf-8")]
-        # get the bytes for each entity
-        hashable.extend(e._bytes() for e in self.entities)
+        # get the bytes for each entity: they are the same for either direction of
+        # an entity so include which way it currently runs since the cached
+        # traversal (`paths` and the direction flag set on entities) depends on it
+        hashable.extend(
+            e._bytes() + bytes([int(e.points[0] > e.points[-1])]) for e in self.entities
+        )
         # hash the combined result
         return caching.hash_fast(b"".join(hashable))
 
